@@ -35,6 +35,11 @@ package mod
 //@   ensures[flushed] err == nil ==> dm.wrBuf == nil && dm.writeStart == old(landing(dm))
 //@   ensures[offset_kept] dm.curWrOff == old(dm.curWrOff)
 //@   ensures[nothing_buffered] old(dm.wrBuf) == nil ==> err == nil && dm.writeStart == old(dm.writeStart)
+// (GetNode syncs the write buffer and may collapse a single-leaf file to a raw leaf: the modifier's own
+// state, the DAG service and nothing of its callers)
+//@ func (*DagModifier).GetNode
+//@   assumed
+//@   modifies fields(dm)
 //@ func (*DagModifier).expandSparse
 //@   assumed
 //@   modifies dm.curNode, dm.read, dm.readCancel
